@@ -34,14 +34,19 @@ def main():
                 else:
                     shutil.copy(src, os.path.join(scratch, item))
             edits = mut.get("edits") or [mut]
+            applies = True
             for edit in edits:
                 path = os.path.join(scratch, edit["file"])
                 text = open(path).read()
                 want = edit.get("count", 1)
                 if text.count(edit["old"]) != want:
-                    print("MUTANT %-40s does not apply (%d occurrences, wanted %d)" % (mut["name"], text.count(edit["old"]), want))
-                    raise SystemExit(2)
+                    print("MUTANT %-40s DOES-NOT-APPLY (%d occurrences, wanted %d)" % (mut["name"], text.count(edit["old"]), want))
+                    applies = False
+                    break
                 open(path, "w").write(text.replace(edit["old"], edit["new"]))
+            if not applies:
+                missed.append(mut["name"] + " (does not apply)")
+                continue
             tests = "skipped"
             if "--skip-tests" not in flags:
                 res = subprocess.run(["/venv/bin/python", "-B", "-m", "pytest", "-q", "-x", "-p", "no:cacheprovider", "tests"],
